@@ -100,7 +100,9 @@ def rule_op_sem(ctx: RuleContext, p: Program, rid: str) -> None:
                   'usual precedence and left associativity) and the arithmetic result are the same rational number; the leaves of the tree are '
                   'exactly the non-blank tokens of the store, in order; operator and operand lists are in step; the right operand is untouched; '
                   'and from_value(v) gives an expression of value v whose NUMBER tokens carry no sign (v over zeros of both signs, negatives, '
-                  'fractions)')
+                  'fractions); NumberMulExpr.from_children / NumberAddExpr.from_children, interpreted on 1..3 operands as a caller has them (a '
+                  'NUMBER token in no store, sign / parenthesis trees with a store of their own, a product made by from_children itself) and '
+                  'fresh operators, return a tree that has a store, spans it, whose leaves are the store\'s tokens and whose value is the arithmetic one')
     m = p.module('models.number_expr')
     ts = TS(p)
     cls_of = {n: next(c for c in p.class_by_name.get(n, []) if 'generated' not in c.module.name or n not in ('NumberExpr', 'NumberUnaryExpr', 'NumberParenExpr')
@@ -541,6 +543,94 @@ def rule_op_sem(ctx: RuleContext, p: Program, rid: str) -> None:
                 problems.setdefault('_add_expr_from_value', f'from_value(Decimal({v!r})): tree evaluates to {tv}, text to {xv}')
         except (possem.Raised, _Bad) as ex:
             problems.setdefault('_add_expr_from_value', f'from_value(Decimal({v!r})): {ex}')
+    # from_children of the two hand-written chain classes: operands as a caller has them (a NUMBER token fresh from from_value / parse_token --
+    # in no store --, a sign or parenthesis tree spanning a store of its own, a product built by from_children itself), operators fresh
+    def atom_of(it: Any, shape: str) -> Any:
+        if shape == 'free':
+            return possem.Obj('Number', {'raw_text': '7', 'value': F(7), 'store': None}, "free number '7'")
+        e_ = build(it, shape)
+        return it.get(it.get(it.get(e_, 'raw_number_add_expr'), 'raw_operands')[0], 'raw_operands')[0]
+
+    def mul_of(it: Any, shape: str) -> Any:
+        if shape == 'made':
+            return it.call_function(cls_of['NumberMulExpr'].lookup('from_children'), [possem.ClassRef('NumberMulExpr'), (atom_of(it, 'free'),), ()], {})
+        e_ = build(it, shape)
+        return it.get(it.get(e_, 'raw_number_add_expr'), 'raw_operands')[0]
+
+    def check_chain(it: Any, res: Any, want: F, operands: list, show: str, key: str) -> None:
+        store = it.store_of(res)
+        if not (isinstance(store, possem.Obj) and store.cls == 'Store'):
+            problems.setdefault(key, f'{show}: the tree that is returned has no token store (it prints as the empty text, and as an operand of a '
+                                     f'further from_children it contributes no tokens)')
+            return
+        doc = [t for t in store.f['doc'] if t.cls != 'Whitespace']
+        if any(t.f.get('store') is not store for t in store.f['doc']):
+            problems.setdefault(key, f'{show}: a token in the store does not point back to it')
+            return
+        try:
+            lv = it.leaves(res)
+        except _Bad as ex:
+            problems.setdefault(key, f'{show}: {ex}')
+            return
+        if [id(x) for x in lv] != [id(x) for x in doc]:
+            problems.setdefault(key, f'{show}: the tree\'s leaves read [{" ".join(str(x.f.get("raw_text")) for x in lv)}] but its store holds '
+                                     f'[{" ".join(str(x.f.get("raw_text")) for x in doc)}]')
+            return
+        for o_ in operands:
+            if it.is_tree(o_) and it.store_of(o_) is not store:
+                problems.setdefault(key, f'{show}: an operand still refers to its old store')
+                return
+        tv = it.attr_of(res, 'value', None)
+        xv = _text_value([str(t.f['raw_text']) for t in doc])
+        if F(tv) != want or xv != want:
+            problems.setdefault(key, f'{show}: arithmetic gives {want}; the tree evaluates to {tv}, its text to {xv}')
+
+    fc_n = 0
+    atom_vals = {'free': F(7), '- 7': F(-7), '( 7 + 3 )': F(10)}
+    for k_ in (1, 2, 3):
+        for shapes_ in itertools.product(atom_vals, repeat=k_):
+            for ops_ in itertools.product('*/', repeat=k_ - 1):
+                it = Interp()
+                it.problems = []
+                operands_ = [atom_of(it, sh) for sh in shapes_]
+                optoks = [possem.Obj('MulOp', {'raw_text': o, 'store': None}, f'new {o!r}') for o in ops_]
+                want = atom_vals[shapes_[0]]
+                for o, sh in zip(ops_, shapes_[1:]):
+                    want = want * atom_vals[sh] if o == '*' else want / atom_vals[sh]
+                show = 'NumberMulExpr.from_children((' + ', '.join(shapes_) + '), (' + ', '.join(ops_) + '))'
+                fc_n += 1
+                try:
+                    res = it.call_function(cls_of['NumberMulExpr'].lookup('from_children'), [possem.ClassRef('NumberMulExpr'), tuple(operands_), tuple(optoks)], {})
+                    check_chain(it, res, want, operands_, show, 'NumberMulExpr.from_children')
+                except (possem.Raised, _Bad) as ex:
+                    problems.setdefault('NumberMulExpr.from_children', f'{show}: {ex}')
+    mul_vals = {'made': F(7), '7': F(7), '7 * 3': F(21), '- 7': F(-7), '( 7 + 3 )': F(10)}
+    for k_ in (1, 2, 3):
+        for shapes_ in itertools.product(mul_vals, repeat=k_):
+            if k_ == 3 and len(set(shapes_)) == 3 and 'made' not in shapes_:
+                continue
+            for ops_ in itertools.product('+-', repeat=k_ - 1):
+                it = Interp()
+                it.problems = []
+                show = 'NumberAddExpr.from_children((' + ', '.join('from_children((free number,), ())' if sh == 'made' else sh for sh in shapes_) + '), (' + ', '.join(ops_) + '))'
+                fc_n += 1
+                try:
+                    operands_ = [mul_of(it, sh) for sh in shapes_]
+                    optoks = [possem.Obj('AddOp', {'raw_text': o, 'store': None}, f'new {o!r}') for o in ops_]
+                    want = mul_vals[shapes_[0]]
+                    for o, sh in zip(ops_, shapes_[1:]):
+                        want = want + mul_vals[sh] if o == '+' else want - mul_vals[sh]
+                    res = it.call_function(cls_of['NumberAddExpr'].lookup('from_children'), [possem.ClassRef('NumberAddExpr'), tuple(operands_), tuple(optoks)], {})
+                    check_chain(it, res, want, operands_, show, 'NumberAddExpr.from_children')
+                except (possem.Raised, _Bad) as ex:
+                    problems.setdefault('NumberAddExpr.from_children', f'{show}: {ex}')
+    n += fc_n
+    if fc_n < 300:
+        raise AnalysisError(f'OP-SEM: only {fc_n} from_children calls evaluated')
+    for key in ('NumberMulExpr.from_children', 'NumberAddExpr.from_children'):
+        f = cls_of[key.split('.')[0]].lookup('from_children')
+        ctx.check(key not in problems, rid, f'models.{"number_mul_expr" if "Mul" in key else "number_add_expr"}:{key}', 'a tree spanning a store of its own',
+                  f'{key}: {problems.get(key, "")}', f.where if isinstance(f, FuncInfo) else '', note=f'{fc_n} from_children calls')
     if n < 600:
         raise AnalysisError(f'OP-SEM: only {n} operations evaluated')
     for meth in ('_iaddsub', '_imuldiv', '_unary', 'wrap_with_parenthesis', '_add_expr_from_value'):
